@@ -578,6 +578,11 @@ def ref_third(apid: int, user: bytes):
         items.append(("SU", "Int", su, su))                            # the encoding says two's complement; `signed` on the type does not
         us = b.u(8)
         items.append(("US", "Int", us, us))
+        be = b.u(16)
+        items.append(("BE16", "Int", be, be))
+        w = b.u(16)                                                     # two encodings that differ only in their byte order
+        le = ((w & 0xFF) << 8) | (w >> 8)
+        items.append(("LE16", "Int", le, le))
         return "ok", items
     if 200 <= apid < 300:
         cc = b.u(8)
@@ -600,6 +605,19 @@ def ref_third(apid: int, user: bytes):
         x = b.u(8)
         items.append(("X8", "Int", x, x))
         return "unrecognized", items
+    if apid == 400 and id_ != 10:
+        # two sibling criteria with the same text `LV == 4`: one on the calibrated value (2 * raw), one on the raw value
+        lv = b.u(8)
+        items.append(("LV", "Float", 2.0 * lv, lv))
+        if lv == 2:
+            x = b.u(8)
+            items.append(("X8", "Int", x, x))
+            return "ok", items
+        if lv == 4:
+            y = b.u(8)
+            items.append(("Y8", "Int", y, y))
+            return "ok", items
+        return "unrecognized", items
     if apid >= 300 and id_ == 10:                                       # value="010" is the decimal number ten
         y = b.u(8)
         items.append(("Y8", "Int", y, y))
@@ -609,7 +627,7 @@ def ref_third(apid: int, user: bytes):
 
 def third_cases():
     s16 = lambda v: (v & 0xFFFF).to_bytes(2, "big")
-    A = lambda id_, mode, ta, tr, su, us: bytes([id_, mode]) + s16(ta) + s16(tr) + s16(su) + bytes([us])
+    A = lambda id_, mode, ta, tr, su, us: bytes([id_, mode]) + s16(ta) + s16(tr) + s16(su) + bytes([us]) + b"\x12\x34\x12\x34"
     B = lambda id_, mode, cc, sp, text: bytes([id_, mode, cc, sp]) + (text.encode("utf-16-le") + b"!\x00" + b"\xee" * 8)[:8]
     cases = [
         ("time encoding with scale 0.5 and offset 100; two's complement under signed=\"false\"; lower end of the APID range", 100, A(0, 0, 1000, 7, -42, 200)),
@@ -627,6 +645,9 @@ def third_cases():
         ("the idle APID 2047 is described by the document like any other (ID=10)", 2047, bytes([10, 3, 0xA5])),
         ("APID 0", 0, bytes([10, 3, 0xA5])),
         ("an abstract container without inheritors describes no packet (APID 77)", 77, bytes([1, 2, 0x33])),
+        ("siblings with the same criterion text, one calibrated one raw: calibrated 4 (raw 2)", 400, bytes([0, 0, 2, 0x61])),
+        ("siblings with the same criterion text, one calibrated one raw: raw 4 (calibrated 8)", 400, bytes([0, 0, 4, 0x62])),
+        ("siblings with the same criterion text: neither holds (raw 3)", 400, bytes([0, 0, 3, 0x63])),
     ]
     return cases
 
